@@ -270,6 +270,12 @@ def install():
     import gherkin.stream.source_events as se
 
     info = {"probes": []}
+    for mod in ("gherkin.stream.gherkin_events", "gherkin.token_matcher_markdown", "gherkin.token_formatter_builder", "gherkin.pickles.compiler",
+                "gherkin.ast_builder", "gherkin.dialect", "gherkin.errors", "scripts.generate_events"):
+        try:  # everything is loaded before the first module-state fingerprint is taken
+            __import__(mod)
+        except Exception:  # noqa: BLE001
+            info.setdefault("not_importable", []).append(mod)
 
     orig_read_token = gp.Parser.__dict__.get("read_token")
     if orig_read_token is not None:
